@@ -15,7 +15,8 @@ EXPLANATION = (
     "Theorems in coq/Props/C15.v: for EVERY sequence of heading levels (any length, any jumps) the chunk sequence that "
     "render_toc_ul concatenates is read by a tag stack machine (ul/li open/close, anchor) as a well-nested list forest "
     "with all elements closed, every entry's anchor exactly once in input order, and entry i directly under the closest "
-    "preceding entry of strictly smaller level (induction over the level stack with a chain-of-minima invariant). The "
+    "preceding entry of strictly smaller level (induction over the level stack with a chain-of-minima invariant). The id "
+    "STRINGS toc_N are pairwise different too (C15_id_strings_unique: str(int) is read back, Proofs/DecimalProofs.v). The "
     "literal pieces are regenerated from the source and tied by lexing them inside Coq (C15_tie_pieces); the control "
     "skeleton of render_toc_ul, add_toc_hook, TableOfContents.toc_hook is compared with a committed skeleton by the "
     "translator. Hook/directive: ids are prefix+1..k in document order over the eligible top-level headings (hence "
